@@ -1,4 +1,12 @@
 """C04 integer and float arithmetic against an unbounded-integer / IEEE reference."""
+REG = dict(
+    engine='E1-enum',
+    technique='bounded-exhaustive enumeration of operand pairs over a boundary grid, executed on the real interpreter, compared with an unbounded-integer / IEEE-754 reference model',
+    text="All pairs over 34 boundary integers and all of [-20,20]^2 for the 12 Int operators and +=/-=, and all pairs of 20 finite floats for the 4 float operators, are evaluated by the real interpreter and compared with a reference computed in Python's unbounded integers / binary64 directly from the property statement. Fully exhaustive over these grids.",
+    note="The 'rest sampled' half of the quantifier is not claimed. Results are compared through string_repr; float inf/NaN results only need to be a value or an exception.",
+    design_ref='DESIGN.md §6 C04',
+)
+
 import itertools, math, struct
 from ..core import Machinery
 
